@@ -165,6 +165,16 @@ class Analyzer:
             res.opaque.add(unparse(f))
             return {'O:' + unparse(f)}
         if isinstance(f, ast.Name):
+            if f.id == 'getattr' and len(c.args) >= 2:
+                base = self.tok(c.args[0], env, res)
+                out = set()
+                for t in base:
+                    out.add(t + '.<attr>' if t.startswith(('A:', 'P:')) else t)
+                    if t.startswith('P:'):
+                        out.add(t)
+                if len(c.args) > 2:
+                    out |= argtoks[2]
+                return out
             if f.id in PURE_BUILTINS:
                 return {self._fresh(c)}
             if self.model is not None and self.module is not None:
@@ -221,6 +231,16 @@ class Analyzer:
         return out
 
     # ------------------------------------------------------------ statements
+    def _assumed(self, test):
+        """truth value of a branch test under the caller's assumptions (path specialisation), or None."""
+        assume = getattr(self, 'assume', None) or {}
+        if isinstance(test, ast.Name) and test.id in assume:
+            return bool(assume[test.id])
+        if isinstance(test, ast.UnaryOp) and isinstance(test.op, ast.Not) and isinstance(test.operand, ast.Name) \
+                and test.operand.id in assume:
+            return not bool(assume[test.operand.id])
+        return None
+
     def run(self, fn):
         res = Analysis()
         self.fn = fn
@@ -345,6 +365,11 @@ class Analyzer:
             res.returns.append((st, [self.tok(x, env, res) for x in elts], elts))
             return env
         if isinstance(st, ast.If):
+            known = self._assumed(st.test)
+            if known is True:
+                return self._block(st.body, env, res)
+            if known is False:
+                return self._block(st.orelse, env, res)
             self.tok(st.test, env, res)
             e1 = self._block(st.body, env, res)
             e2 = self._block(st.orelse, env, res)
